@@ -38,6 +38,7 @@ def main():
         ck.finish()
     ck.check_props()
     ck.check_translation("classification")
+    ck.check_translation("table")
     cmax = 6 if ck.quick else 8
     nmax = 12 if ck.quick else 16
     ns = list(range(3, nmax + 1))
